@@ -45,8 +45,8 @@ def install_node_recorder():
                 old = self.__dict__.get(key, None)
                 self.__dict__[key] = value
                 sink = _installed["sink"]
-                if sink is not None and not first and old != value:      # the first assignment is the initialisation
-                    sink(self, flag, old, value)
+                if sink is not None and not first and (old != value or flag in ("started", "completed")):
+                    sink(self, flag, old, value)             # the first assignment is the initialisation
             return property(getter, setter)
         setattr(ast.Node, flag, make(flag))
     probe = ast.MarkNode()
@@ -56,6 +56,54 @@ def install_node_recorder():
     if missing:
         raise RuntimeError(f"interpretation flags not found on ast.Node: {missing}")
     _installed["done"] = True
+
+
+def install_interpreter_probes():
+    """Observation-only wrappers (harness side, no repository change) around three interpreter methods: the per-tick entry
+    point, the threshold test and the condition test.  They report to the run that is currently recording."""
+    from openpectus.lang.exec.pinterpreter import PInterpreter
+    if getattr(PInterpreter, "_vf_probed", False):
+        return
+    o_tick, o_thr, o_act = PInterpreter.tick, PInterpreter._is_awaiting_threshold, PInterpreter._try_activate_node
+
+    def tick(self, tick_time, tick_number):
+        run = _installed.get("run")
+        if run is not None:
+            run._ev("itick", phase="begin")
+        try:
+            return o_tick(self, tick_time, tick_number)
+        finally:
+            if run is not None:
+                run._ev("itick", phase="end")
+
+    def thr(self, node):
+        run = _installed.get("run")
+        reached = run._reached(node) if run is not None else True
+        res = o_thr(self, node)
+        if run is not None and node.threshold is not None:
+            run._ev("thr", n=str(node.id), oid=id(node) % 1000003, awaiting=bool(res), reached=bool(reached),
+                    forced=bool(node.forced), completed=bool(node.completed))
+        return res
+
+    def act(self, node):
+        run = _installed.get("run")
+        cn = run._cond_now(node) if run is not None else None
+        if run is not None:
+            run._ev("tryact", n=str(node.id), oid=id(node) % 1000003, condNow="unknown" if cn is None else str(bool(cn)),
+                    forced=bool(node.forced), cancelled=bool(node.cancelled))
+        return o_act(self, node)
+    PInterpreter.tick, PInterpreter._is_awaiting_threshold, PInterpreter._try_activate_node = tick, thr, act
+    PInterpreter._vf_probed = True
+
+    from openpectus.lang.exec.tracking import Tracking
+    o_add = Tracking._add_record_state
+
+    def add(self, instance_id, record, state, command=None):
+        run = _installed.get("run")
+        if run is not None and self.enabled:
+            run._ev("rec", n=str(record.node_id), state=str(state), inst=run._inst(instance_id, record))
+        return o_add(self, instance_id, record, state, command=command)
+    Tracking._add_record_state = add
 
 
 def build_uod(log, hw):
@@ -179,6 +227,8 @@ class EngineRun:
         from openpectus.lang.exec.clock import WallClock
         from openpectus.lang.exec.timer import NullTimer
         install_node_recorder()
+        install_interpreter_probes()
+        _installed["run"] = self
         self.Mdl = Mdl
         self.events: list[dict] = []
         self.tick_no = -1
@@ -231,13 +281,14 @@ class EngineRun:
     def _uod_log(self, what, name, instance_id, it):
         self._ev(what, name=name, inst=self._inst(instance_id), it=it)
 
-    def _inst(self, instance_id):
+    def _inst(self, instance_id, rec=None):
         if instance_id not in self.item_ids:
             self.item_ids.append(instance_id)
             idx = len(self.item_ids)
             node, cls, name = "", "", ""
             try:
-                rec = self.engine.tracking.get_record_by_instance_id(instance_id)
+                if rec is None:
+                    rec = self.engine.tracking.get_record_by_instance_id(instance_id)
                 if rec is not None:
                     node, cls, name = str(rec.node_id), str(rec.node_class_name), str(rec.name)
             except Exception:
@@ -245,8 +296,47 @@ class EngineRun:
             self.events.append({"e": "item", "t": self.tick_no, "id": idx, "node": node, "cls": cls, "name": name})
         return self.item_ids.index(instance_id) + 1
 
+    def _clock(self):
+        """the scope clock a threshold is compared with, read at this very moment: (block tag, block time, scope time, base)"""
+        from openpectus.lang.exec.tags import SystemTagName as S
+        st = self.engine._system_tags
+        try:
+            return (st[S.BLOCK].get_value(), float(st[S.BLOCK_TIME].get_value()), float(st[S.SCOPE_TIME].get_value()),
+                    str(st[S.BASE].get_value()))
+        except Exception:
+            return (None, 0.0, 0.0, "s")
+
+    def _reached(self, node):
+        thr = getattr(node, "threshold", None)
+        if thr is None:
+            return True
+        blk, bt, stime, base = self._clock()
+        factor = {"s": 1, "min": 60, "h": 3600}.get(base)
+        if factor is None:
+            return True
+        clock = bt if blk not in (None, "") else stime
+        return Fraction(str(clock)) >= Fraction(str(thr)) * factor      # the clock value as every observer reads it
+
+    def _cond_now(self, node):
+        """exact evaluation of a Watch/Alarm condition on the current tag value (same-unit conditions only)"""
+        try:
+            c = node.tag_operator_value
+            tag = self.engine.tags[c.tag_name]
+            a, b = Fraction(str(tag.get_value())), Fraction(str(c.tag_value))
+            if (c.tag_unit or None) != (tag.unit or None):
+                return None
+            return {"<": a < b, "<=": a <= b, ">": a > b, ">=": a >= b, "=": a == b, "==": a == b, "!=": a != b}[c.op]
+        except Exception:
+            return None
+
     def _node_sink(self, node, flag, old, new):
-        self._ev("flag", ctx=self.in_request, oid=id(node) % 1000003, n=str(node.id), cls=type(node).__name__, ins=str(getattr(node, "instruction_name", "") or ""),
+        extra = {}
+        if flag == "started" and new:
+            extra["reached"] = bool(self._reached(node))
+        if flag == "activated" and new:
+            cn = self._cond_now(node)
+            extra["condNow"] = "unknown" if cn is None else str(bool(cn))
+        self._ev("flag", **extra, ctx=self.in_request, oid=id(node) % 1000003, n=str(node.id), cls=type(node).__name__, ins=str(getattr(node, "instruction_name", "") or ""),
                  f=flag.lstrip("_"), old=num(old), new=num(new))
 
     def _drain_writes(self, phase):
@@ -296,6 +386,9 @@ class EngineRun:
     def _request(self, kind, fn, **kw):
         res, exc = "ok", "none"
         pre = self._digest() if kind in ("cancel", "force", "edit", "inject") else None
+        if kind in ("edit", "inject"):
+            kw["preM"] = self.snapshot()["mstate"]
+            kw["preF"] = self.node_flags()
         self.in_request = kind
         try:
             r = fn()
@@ -307,12 +400,39 @@ class EngineRun:
             self.in_request = ""
         if pre is not None:
             kw["unchanged"] = (pre == self._digest())
+        if kind in ("edit", "inject"):
+            kw["postM"] = self.snapshot()["mstate"]
+            kw["postF"] = self.node_flags()
         self._ev("req", k=kind, res=res, exc=exc, **kw)
         if kind == "edit":
             self._log_program()
         if kind == "inject" and res == "ok":
             self._log_injected()
         return res
+
+    def node_flags(self):
+        """interpretation flags of every node of the tree the interpreter is actually executing (plus injected subtrees)"""
+        out = {k: [] for k in ("started", "completed", "failed", "activated", "locked", "ended", "registered", "cancelled", "forced",
+                               "macroStarted")}
+        try:
+            interp = self.engine.interpreter
+            nodes = list(interp._program.get_all_nodes())
+            for intr in interp.interrupts:
+                if type(intr.node).__name__ == "InjectedNode":
+                    nodes.append(intr.node)
+                    nodes.extend(intr.node.get_child_nodes(recursive=True))
+            for n in nodes:
+                i = str(n.id)
+                for key, attr in (("started", "started"), ("completed", "completed"), ("failed", "failed"), ("activated", "activated"),
+                                  ("locked", "lock_acquired"), ("ended", "block_ended"), ("registered", "interrupt_registered"),
+                                  ("cancelled", "_cancelled"), ("forced", "_forced")):
+                    if getattr(n, attr, False):
+                        out[key].append(i)
+                if getattr(n, "run_started_count", 0) > 0:
+                    out["macroStarted"].append(i)
+        except Exception as ex:
+            out["exc"] = type(ex).__name__
+        return {k: (sorted(set(v)) if isinstance(v, list) else v) for k, v in out.items()}
 
     def _log_injected(self):
         """the subtree of the code injected last (an InjectedNode registered as an interrupt)"""
@@ -348,6 +468,8 @@ class EngineRun:
                 nodes.append({"id": str(n.id), "cls": type(n).__name__, "ins": str(getattr(n, "instruction_name", "") or ""),
                               "parent": str(par.id) if par is not None else "", "thr": n.threshold is not None,
                               "thrv": None if n.threshold is None else float(n.threshold),
+                              "line": int(n.position.line), "trail": bool(getattr(n, "has_only_trailing_whitespace", False)),
+                              "name": str(getattr(n, "name", "") or ""),
                               "args": str(getattr(n, "arguments", "") or "")})
             self._ev("prog", nodes=nodes)
         except Exception as ex:
@@ -476,6 +598,7 @@ class EngineRun:
 
     def close(self):
         _installed["sink"] = None
+        _installed["run"] = None
         try:
             self.engine.cleanup()
         except Exception:
